@@ -12,6 +12,7 @@ pub open spec fn lex_lt(a: Seq<u8>, b: Seq<u8>) -> bool
 }
 
 /// abstract content of the record's `BTreeMap<Vec<u8>, Bytes>`: keyed by byte strings, raw RLP values
+#[verifier::opaque]
 pub open spec fn cmap(m: Map<Key, Bytes>) -> Map<Seq<u8>, Seq<u8>> {
     Map::new(
         m.dom().map(|kk: Key| kk@),
